@@ -1,4 +1,5 @@
 import RTV.Lemmas.TimexGrammar
+import RTV.Model.TimexConvert
 /-!
 # C14 — TIMEX strings survive parsing and formatting unchanged
 
@@ -294,5 +295,166 @@ theorem tiny_amount_not_stable :
     parse genCfg [80, 49, 69, 45, 55, 68] = {} ∧
     parse genCfg [80, 48, 46, 48, 48, 48, 48, 48, 48, 49, 68] = { days := some (.dec false 1 (-7)) } := by
   decide
+
+/-! ## package functions outside the C14 property (characterisation only)
+
+`Timex.to_string` / `Timex.to_natural_language` (english_timex_convert.py, english_timex_relative_convert.py),
+`convert_timex_set_to_string`, `TimexInference.infer` on the grammar and `TimexCreator` are not part of the parse /
+format property (nor of C15).  The theorems below say what they compute — including what is plainly odd — so that a
+change of behaviour is a broken obligation; the check ties `RTV.Model.TimexConvert` to the code by unit correspondence
+and gives no property verdict for these functions. -/
+
+/-- the constants of `EnglishConstants` the statements below quote (regenerated from the tree) -/
+theorem genEng_facts :
+    genEng.days.length = 7 ∧ genEng.months.length = 12 ∧ genEng.weeks.length = 4 ∧
+    genEng.dateAbbreviation = [(0, [116, 104]), (1, [115, 116]), (2, [110, 100]), (3, [114, 100]), (4, [116, 104]),
+      (5, [116, 104]), (6, [116, 104]), (7, [116, 104]), (8, [116, 104]), (9, [116, 104])] := by decide
+
+theorem month_idx_ok (m : Nat) (h1 : 1 ≤ m) (h : m ≤ 12) :
+    ∃ month, listIdx genEng.months ((m : Int) - 1) = .ok month := by
+  have : ∀ k : Fin 12, (Py.index genEng.months (k.val : Int)).isSome = true := by decide
+  have hk := this ⟨m - 1, by omega⟩
+  unfold listIdx
+  have e : ((m : Int) - 1) = ((m - 1 : Nat) : Int) := by omega
+  rw [e]
+  cases hx : Py.index genEng.months ((m - 1 : Nat) : Int) with
+  | none => simp [hx] at hk
+  | some x => exact ⟨x, rfl⟩
+
+/-- **convert_time** is a 12-hour clock: for every clock time that is not exactly midnight or midday the text is
+`((h + 11) mod 12) + 1`, then `:mm` unless minute and second are both zero, then `:ss` unless the second is zero, then
+`AM` for `h < 12` and `PM` otherwise. -/
+theorem convert_time_12h (h m s : Nat) (hh : h < 24)
+    (hn : ¬ (m = 0 ∧ s = 0 ∧ (h = 0 ∨ h = 12))) :
+    convertTime { time := some ⟨.int h, .int m, .int s⟩ } =
+      .ok (nstr ((h + 11) % 12 + 1) ++ (if m = 0 ∧ s = 0 then [] else 58 :: rjust0 2 (nstr m)) ++
+        (if s = 0 then [] else 58 :: rjust0 2 (nstr s)) ++ (if h < 12 then sAM else sPM)) := by
+  have h0 : ¬ ((h : Int) = 0 ∧ (m : Int) = 0 ∧ (s : Int) = 0) := by omega
+  have h12 : ¬ ((h : Int) = 12 ∧ (m : Int) = 0 ∧ (s : Int) = 0) := by omega
+  have e12 : (if (h : Int) = 0 then [49, 50] else if (h : Int) > 12 then istr ((h : Int) - 12) else istr (h : Int)) =
+      nstr ((h + 11) % 12 + 1) := by
+    by_cases a : h = 0
+    · subst a; decide
+    · by_cases b : h > 12
+      · have : ((h : Int) - 12) = (((h + 11) % 12 + 1 : Nat) : Int) := by omega
+        simp only [show ¬ ((h : Int) = 0) by omega, show (h : Int) > 12 by omega, if_true, if_false, this, istr_nat]
+      · have : (h : Int) = (((h + 11) % 12 + 1 : Nat) : Int) := by omega
+        simp only [show ¬ ((h : Int) = 0) by omega, show ¬ ((h : Int) > 12) by omega, if_false]
+        rw [this, istr_nat]
+  have em : ((m : Int) = 0) ↔ m = 0 := by omega
+  have es : ((s : Int) = 0) ↔ s = 0 := by omega
+  have el : ((h : Int) < 12) ↔ h < 12 := by omega
+  simp only [convertTime, Timex.hour, Timex.minute, Timex.second, Option.map_some, cInt, bind, Except.bind, pure,
+    Except.pure, h0, h12, if_false, e12]
+  simp only [em, es, el, istr_nat]
+
+example : convertTime { time := some ⟨.int 17, .int 0, .int 5⟩ } = .ok [53, 58, 48, 48, 58, 48, 53, 80, 77] ∧
+    convertTime { time := some ⟨.int 0, .int 0, .int 0⟩ } = .ok sMidnight ∧
+    convertTime { time := some ⟨.int 12, .int 0, .int 0⟩ } = .ok sMidday := by decide
+
+/-- **english_convert_date** picks the ordinal suffix by the LAST DIGIT of the day only: `1st 2nd 3rd 4th … 21st 22nd`,
+but also `11st`, `12nd`, `13rd` (no special case for the teens). -/
+theorem english_date_suffix (m dd : Nat) (hm1 : 1 ≤ m) (hm : m ≤ 12) :
+    ∃ month, listIdx genEng.months ((m : Int) - 1) = .ok month ∧
+      englishConvertDate genEng { month := some (.int m), dayOfMonth := some (.int dd) } =
+        .ok (nstr dd ++ (match dd % 10 with
+          | 1 => [115, 116] | 2 => [110, 100] | 3 => [114, 100] | _ => [116, 104]) ++ 32 :: month) := by
+  have hidx := month_idx_ok m hm1 hm
+  obtain ⟨month, hmo⟩ := hidx
+  refine ⟨month, hmo, ?_⟩
+  have hneg : ¬ ((dd : Int) < 0) := by omega
+  have hmod : ((dd : Int) % 10) = ((dd % 10 : Nat) : Int) := by omega
+  have hab : assocInt genEng.dateAbbreviation ((dd % 10 : Nat) : Int) = .ok (match dd % 10 with
+      | 1 => [115, 116] | 2 => [110, 100] | 3 => [114, 100] | _ => [116, 104]) := by
+    have hlt : dd % 10 < 10 := Nat.mod_lt _ (by decide)
+    generalize dd % 10 = k at hlt
+    have : k = 0 ∨ k = 1 ∨ k = 2 ∨ k = 3 ∨ k = 4 ∨ k = 5 ∨ k = 6 ∨ k = 7 ∨ k = 8 ∨ k = 9 := by omega
+    rcases this with rfl | rfl | rfl | rfl | rfl | rfl | rfl | rfl | rfl | rfl <;> decide
+  simp only [englishConvertDate, cInt, bind, Except.bind, pure, Except.pure, hmo, hneg, if_false, hmod, hab, istr_nat]
+
+example : englishConvertDate genEng { month := some (.int 5), dayOfMonth := some (.int 11) } =
+    .ok [49, 49, 115, 116, 32, 77, 97, 121] := by decide   -- '11st May'
+
+/-- `Timex.to_string()` of every ISO-week TIMEX raises `NotImplementedError` (`weekend` is `False`, never `None`), and
+`convert_timex_set_to_string` always raises `TypeError` (it calls the `types` property) -/
+theorem to_string_week_not_implemented (y w : Nat) (we : Bool) :
+    timexToString genEng { year := some (.int y), weekOfYear := some (.int w), weekend := some we } =
+      .error .notImplemented := by
+  cases we <;>
+    simp [timexToString, infer, isDate, isDateRange, isDuration, isTime, isDefinite, truthyO, truthyS, convertDateRange,
+      fstr, bind, Except.bind, pure, Except.pure] <;> rfl
+
+theorem set_to_string_always_raises (e : EngCfg) (t : Timex) : timexSetToString e t = .error .typeError := rfl
+
+/-- `convert_date` of english_timex_convert.py (reached through `to_string()` of a date + part of day) looks the WHOLE
+day up in `DATE_ABBREVIATION`: a KeyError for every day ≥ 10 -/
+theorem convert_date_keyerror (m dd : Nat) (hm1 : 1 ≤ m) (hm : m ≤ 12) (hd : 10 ≤ dd) :
+    convertDateE genEng { month := some (.int m), dayOfMonth := some (.int dd) } = .error .keyError := by
+  have hidx := month_idx_ok m hm1 hm
+  obtain ⟨month, hmo⟩ := hidx
+  have hk : assocInt genEng.dateAbbreviation (dd : Int) = .error .keyError := by
+    rw [genEng_facts.2.2.2]
+    have nk : ∀ k : Int, k < 10 → (k == (dd : Int)) = false := by
+      intro k hk; rw [beq_eq_false_iff_ne]; omega
+    simp [assocInt, List.find?, nk]
+    rfl
+  simp only [convertDateE, cInt, bind, Except.bind, pure, Except.pure, hmo, hk]
+
+/-- `TimexCreator.yesterday(date)` is the canonical TIMEX of the day before -/
+theorem creator_yesterday (d : Date) (hv : d.valid = true) (h2 : 2 ≤ d.ord) :
+    creatorYesterday d = .ok (isoDateStr (Date.ofOrd (d.ord - 1))) := by
+  have hr := ord_range d hv
+  have ha := addDays_ok d (-1) (by omega) (by omega) (by decide)
+  have e : ((d.ord : Int) + -1).toNat = d.ord - 1 := by omega
+  rw [e] at ha
+  have hv' := (ord_ofOrd (d.ord - 1) (by omega) (by omega)).2
+  simp only [creatorYesterday, ha, liftR, bind, Except.bind, format_fromDate _ hv']
+
+/-- the types `TimexInference.infer` gives to each date pattern (no time of day): a full date is `definite` + `date`; a
+weekday is a `date` unless its digit is 0 (Python truthiness); an open-year date is a `date`; years, months, seasons,
+weeks and week-of-month forms are `daterange`s; `XXXX-MM-WXX-w-d` is a `daterange` and, unless `d = 0`, also a `date` -/
+def typesOfD : DateForm → Types
+  | .date .. => { definite := true, date := true }
+  | .weekday w => if w.val = 0 then {} else { date := true }
+  | .openyear .. => { date := true }
+  | .monthweekday _ _ _ d => if d.val = 0 then { daterange := true } else { date := true, daterange := true }
+  | _ => { daterange := true }
+
+/-- **infer_date_forms** — `Timex(s).types` for every string of the twelve date patterns -/
+theorem infer_date_forms (cfg : Cfg) (hc : CfgOK cfg) (f : DateForm) : infer (parse cfg (renderD f)) = typesOfD f := by
+  have h88 : isDig cfg.dv 88 = false := by simp [isDig, hc.dv.2 88 (by decide)]
+  have h45 : isDig cfg.dv 45 = false := by simp [isDig, hc.dv.2 45 (by decide)]
+  have h87 : isDig cfg.dv 87 = false := by simp [isDig, hc.dv.2 87 (by decide)]
+  have h83 : isDig cfg.dv 83 = false := by simp [isDig, hc.dv.2 83 (by decide)]
+  have h70 : isDig cfg.dv 70 = false := by simp [isDig, hc.dv.2 70 (by decide)]
+  rw [parse_renderD cfg hc, hc.date]
+  cases f
+  case season s => cases s <;> simp [extract, stdDate, xxxx, seasons, firstSome, matchItems, renderD, startsWith,
+      seasonStr, Timex.assign, h88, h45, h87, h83, h70, infer, isDate, isDateRange, isDuration, isTime, isDefinite,
+      truthyO, truthyS, typesOfD]
+  case yearseason y1 y2 y3 y4 s => cases s <;> simp [extract, stdDate, xxxx, seasons, firstSome, matchItems, renderD,
+      isDig_dch cfg hc, startsWith, dch_ne, ne_dch, seasonStr, Timex.assign, parseNatDv, dv_dch cfg hc, h88, h45, h87,
+      h83, h70, infer, isDate, isDateRange, isDuration, isTime, isDefinite, truthyO, truthyS, typesOfD]
+  all_goals
+    simp [extract, stdDate, xxxx, seasons, firstSome, matchItems, renderD, isDig_dch cfg hc, startsWith, dch_ne, ne_dch,
+      seasonStr, Timex.assign, parseNatDv, dv_dch cfg hc, h88, h45, h87, h83, h70, infer, isDate, isDateRange,
+      isDuration, isTime, isDefinite, truthyO, truthyS, Num.truthy, typesOfD]
+  all_goals (try (split <;> simp_all))
+
+/-- **infer_time_forms** — a time of day is a `time`, a part of day a `timerange` -/
+theorem infer_time_forms (cfg : Cfg) (hc : CfgOK cfg) (g : TimeForm) :
+    infer (parse cfg (renderT g)) = (match g with
+      | .pod _ => { timerange := true }
+      | _ => { time := true }) := by
+  have h58 : isDig cfg.dv 58 = false := by simp [isDig, hc.dv.2 58 (by decide)]
+  rw [parse_renderT cfg hc, extract_date_nil cfg hc, hc.time]
+  cases g
+  case pod p => cases p <;> simp [extract, stdTime, partsOfDay, firstSome, matchItems, renderT, startsWith, podStr,
+      dictMerge, dictSet, Timex.assign, infer, isDate, isDateRange, isDuration, isTime, isDefinite, truthyO, truthyS,
+      isDig, hc.dv.2]
+  all_goals
+    simp [extract, stdTime, firstSome, matchItems, renderT, isDig_dch cfg hc, dictMerge, dictSet, Timex.assign,
+      parseNatDv, dv_dch cfg hc, Timex.setHour, Timex.setMinute, Timex.setSecond, infer, isDate, isDateRange, isDuration,
+      isTime, isDefinite, truthyO, truthyS, h58, dch_ne, ne_dch]
 
 end RTV.Timex
